@@ -434,3 +434,35 @@ F("D20e", "C17", L + "ecdsa_sig_checks.py", "      pks = _MapIssuerSigIndexes(si
   "      pks = _MapIssuerSigIndexes(sigs)\n      guesses = set()\n      ec_util.CURVE_FACTORY[curve_id] = curve\n      for _, idxs in pks.items():\n        # Exclude duplicate signatures from the actual processing\n        unique_vals = list({\n            ec_util.ECDSAValues(sigs[idx].ecdsa_sig_info, curve) for idx in idxs\n        })\n        a, b",
   "R-C17-STATELESS", "shared curve table written at run time")
 F("D20f", "C17", RS, "      max_pattern_size = n.bit_length() // 8\n      for pattern_size in pattern_sizes:", "      max_pattern_size = n.bit_length() // 8\n      pattern_sizes = pattern_sizes[1:] + pattern_sizes[:1]\n      for pattern_size in pattern_sizes:", "R-C17-INDIVIDUAL", "pattern list rotated per key: order depends on the position in the batch")
+
+# ---------------------------------------------------------------------------------- C05 / C07 / C08
+HN = L + "hidden_number_problem.py"
+LC = L + "lcg_constants.py"
+F("D46", "C05", RS, "      pattern_sizes += [31, 63, 127, 255, 511]", "      pattern_sizes += [63, 127, 255, 511]", "R-C05-SIZES", "31 dropped from the default list")
+F("D47", "C05", RS, "        if pattern_size > max_pattern_size:\n          continue", "        if pattern_size > max_pattern_size:\n          break", "R-C05-CUT", "continue -> break on oversize pattern (list unordered)")
+F("D47b", "C05", RS, "      max_pattern_size = n.bit_length() // 8\n", "      max_pattern_size = n.bit_length() // 32\n", "R-C05-CUT", "pattern cut-off tightened to 1/32")
+F("D47c", "C05", RS, "      for wsize in 8, 16, 32, 64:", "      for wsize in 8, 16, 32:", "R-C05-CUT", "64-bit limbs dropped")
+F("D47d", "C05", RS, "          d = int((2**psize - 1) * (2 ** (psize * wsize) + 1) // (2**wsize + 1))", "          d = int((2**psize - 1) * (2 ** (psize * wsize) - 1) // (2**wsize + 1))", "R-C05-DENOM", "permuted denominator sign")
+F("D47e", "C05", RS, "        d = 2**pattern_size - 1\n", "        d = 2**pattern_size + 1\n", "R-C05-DENOM", "bit pattern denominator 2^w + 1")
+F("D47f", "C05", RS, "      powersmooth = 2**64  # max power of a prime factor from p - 1", "      powersmooth = 2**32  # max power of a prime factor from p - 1", "R-C05-PM1", "powersmooth bound halved (bits)")
+F("D47g", "C05", RU, "    if p == n:\n      return True, []", "    if p == n:\n      return False, []", "R-C05-PM1", "both-smooth case no longer flagged")
+F("D47h", "C05", RU, "  threshold_weak = n.bit_length() - 12", "  threshold_weak = n.bit_length() - 40", "R-C05-HW", "Hamming-weight threshold far stricter (misses documented region)")
+T("D47i", "C05", RS, "      max_pattern_size = n.bit_length() // 8\n", "      max_pattern_size = n.bit_length() // 10\n", "cut-off 1/10 still covers the stated 1/16")
+F("D44", "C07", RS, "  def __init__(self, bound: Optional[int] = 2**48):", "  def __init__(self, bound: Optional[int] = 2**40):", "R-C07-BOUNDS", "continued-fraction bound loosened")
+T("D45", "C07", RS, "  def __init__(self, bound: Optional[int] = 2**48):", "  def __init__(self, bound: Optional[int] = 2**49):", "stricter bound is fine (one-sided)")
+F("D45b", "C07", RU, "    n: int, m: Optional[int] = None, gcd_bound: int = 2**60", "    n: int, m: Optional[int] = None, gcd_bound: int = 2**30", "R-C07-BOUNDS", "Pollard gate loosened")
+F("D45c", "C07", RU, "  threshold_weak = n.bit_length() - 12", "  threshold_weak = n.bit_length() - 2", "R-C07-BOUNDS", "Hamming-weight threshold loosened")
+F("D45d", "C07", RU, "    if quot >= bound:\n", "    if quot >= bound // 2**20:\n", "R-C07-BOUNDS", "coefficient alarm far below the bound")
+F("D45e", "C07", RS, "      if factors:\n        logging.warning(\"Key factored! Factors: %s\\n%s\", factors, key.rsa_info)\n        util.AttachFactors(key.test_info, consts.INFO_NAME_N_FACTORS, factors)\n        any_weak = True\n        test_result.result = True\n      util.SetTestResult(key.test_info, test_result)\n    return any_weak\n\n\nclass CheckHighAndLowBitsEqual",
+  "      if factors:\n        logging.warning(\"Key factored! Factors: %s\\n%s\", factors, key.rsa_info)\n        util.AttachFactors(key.test_info, consts.INFO_NAME_N_FACTORS, factors)\n        any_weak = True\n        test_result.result = True\n      elif n % 3 == 0:\n        any_weak = True\n        test_result.result = True\n      util.SetTestResult(key.test_info, test_result)\n    return any_weak\n\n\nclass CheckHighAndLowBitsEqual",
+  "R-C07-EXACT", "CheckFermat accuses without a certificate")
+F("D48", "C08", ES, "                  hnp.HiddenNumberProblem(a[i:i + size], b[i:i + size], None,", "                  hnp.HiddenNumberProblem(a[i:i + size], b[i:i + size - 1], None,", "R-C08-WINDOW", "b window one short")
+F("D48b", "C08", ES, "          for size in (24, 48, 120):", "          for size in (24, 48):", "R-C08-WINDOW", "largest window dropped")
+F("D48c", "C08", ES, "            if len(a) <= size:\n              # Tests with a larger window are not leading to additional tests.\n              break", "            if len(a) >= size:\n              # Tests with a larger window are not leading to additional tests.\n              break", "R-C08-WINDOW", "break condition inverted: larger windows never tried")
+F("D49", "C08", LC, "    'sample_size':\n        24,\n    'min_signatures':\n        2,\n    'sliding_window_size':\n        2,\n    'bias':\n        14,", "    'sample_size':\n        40,\n    'min_signatures':\n        2,\n    'sliding_window_size':\n        2,\n    'bias':\n        14,", "R-C08-LCG-TABLE", "sample size raised beyond the shipped constants")
+F("D49b", "C08", HN, "  DEFAULT = SINGLE | SLIDING | INCLUDE_KEY", "  DEFAULT = SINGLE | SLIDING", "R-C08-SUBSETS", "key inclusion dropped from DEFAULT")
+F("D49c", "C08", ES, "      sigs = [s for s in artifacts if s.issuer_key_info.curve_type == curve_id]\n      if not sigs:\n        continue\n      pks = _MapIssuerSigIndexes(sigs)\n      guesses = set()\n      for _, idxs in pks.items():\n        # Exclude duplicate signatures from the actual processing\n        unique_vals = list({\n            ec_util.ECDSAValues(sigs[idx].ecdsa_sig_info, curve) for idx in idxs\n        })\n        a, b",
+  "      sigs = [s for s in artifacts if s.issuer_key_info.curve_type == curve_id]\n      if not sigs:\n        continue\n      pks = _MapIssuerSigIndexes(sigs)\n      guesses = set()\n      for _, idxs in pks.items():\n        # Exclude duplicate signatures from the actual processing\n        unique_vals = list({\n            ec_util.ECDSAValues(sigs[idx].ecdsa_sig_info, curve) for idx in range(len(sigs))\n        })\n        a, b",
+  "R-C08-GROUP", "every issuer gets the signatures of all issuers")
+F("D49d", "C08", CR, "  basis = [0x1010101 << j for j in range(0, n.bit_length(), 32)]", "  basis = [0x1010101 << j for j in range(0, n.bit_length(), 64)]", "R-C08-U2F", "every second limb missing from the basis")
+F("D49e", "C08", ES, "        for i in range(len(unique_vals) - 1):\n          r1, s1, z1 = unique_vals[i]\n          r2, s2, z2 = unique_vals[i + 1]", "        for i in range(0, len(unique_vals) - 1, 2):\n          r1, s1, z1 = unique_vals[i]\n          r2, s2, z2 = unique_vals[i + 1]", "R-C08-U2F", "pairs no longer slide (half of the adjacent pairs skipped)")
